@@ -30,13 +30,15 @@ SPEC = {
             "follower that is ahead of it (backward install), restarts, the pinset after every FSM step, "
             "the real OfflineState on a file-store copy of a member's newest own snapshot; plus boundary-value pins, "
             "malformed entries and pins with origins; and (R2) the real NewConsensus over libp2p + boltdb, 1 and 3 peers, with shutdown, "
-            "restart on the same folder, install onto a restarted follower, OfflineState; and (R3) kill -9 of a child process running a "
+            "restart on the same folder, install onto a restarted follower, OfflineState, a LogPin submitted to a member while it shuts down "
+            "(placed by a pass-through datastore at the point where the final snapshot is written); and (R3) kill -9 of a child process running a "
             "1-peer consensus at a chosen acknowledgement, restart on the same folder. non-trivial = at least two ops on one cid reached the committed log and "
             "some replica restored a snapshot or restarted; distinct = distinct canonical JSON of the script",
     "codes": {1: "model_eq_impl (C01: Gallina FSM/LogOp/dsstate model driven by the observed Raft schedule)",
               2: "spec_okb (C01: every replica = replay of a prefix of the one committed sequence, nothing skipped, acknowledged ops "
                  "in the sequence and visible on the committer (the member whose CommitOp returned nil), tracker told what is stored, "
-                 "OfflineState = the prefix its newest snapshot is labelled with)"},
+                 "OfflineState = the prefix its newest snapshot is labelled with, nothing acknowledged at a member lies above the "
+                 "snapshots it has persisted when its Shutdown has returned)"},
     "tags": {1: "origins-undecodable-raft", 3: "snapshot-persist-not-point-in-time"},
     "trusted": ["harness/raft/c01_rig_test.go: guard FSM (records Apply/Snapshot/Persist/Restore under one mutex, recovers panics), "
                 "recording PinTracker RPC service, redirect service standing for ConsensusRPCAPI (it names the committer of an acknowledged op), "
@@ -44,6 +46,7 @@ SPEC = {
                 "hashicorp/raft v1.1.1 (replication, commitment, snapshot install - in either direction: nothing is assumed about a snapshot "
                 "being installed only on a replica that is behind it; it was observed not to hold), its in-memory stores and transport; "
                 "the rig's re-sent InstallSnapshot request (leader's identity, term and newest snapshot) stands for the leader's duplicate",
+                "harness/raft/c01_r2_test.go: pass-through datastore that starts a LogPin when the shutdown snapshot enumerates the pinset",
                 "ugorji msgpack and golang protobuf byte formats"],
     "level_text": "Theorems (Props/C01.v) over the Gallina transcription of FSM.Apply/Snapshot/Persist/Restore, LogOp.ApplyTo, "
                   "dsstate Marshal/Unmarshal and ProtoMarshal/ProtoUnmarshal for every log and every schedule of apply, snapshot, "
@@ -52,7 +55,9 @@ SPEC = {
                   "well-formed trace (code 1 absent) with tag_of = 0 (the recognisers of S19 and S23 are the guard) => every monitor conjunct the model "
                   "speaks about (all but C17's OReady; acknowledgements included), i.e. no untagged code-2 failure on a trace the model accepts; "
                   "the model enables an acknowledgement only when the command is in the log below what its committer has applied "
-                  "(raft_ack_visible_on_committer, raft_ack_in_committer_pinset)",
+                  "(raft_ack_visible_on_committer, raft_ack_in_committer_pinset); a shutdown that takes its final snapshot with nothing committed "
+                  "in between (shutdownLock) leaves every op acknowledged at the member in OfflineState and in the state restored from disk "
+                  "(raft_shutdown_loses_nothing_acknowledged; run-time form: pass 3 of spec_okb at OStopped)",
     "level_note": "partial: commitment, durability of acknowledged entries and the single committed sequence are hashicorp/raft's "
                   "(assumed by the model, sampled by the rigs); model tied to code by differential testing",
     "assumptions": ["hashicorp/raft applies committed entries in index order (again from the snapshot's index after an install, which may be "
